@@ -45,11 +45,20 @@ func VerifyFunc(p *Program, key string) (enc *Enc, err error) {
 			return nil, err
 		}
 	}
+	e.top = f
 	for _, prm := range fn.Params {
 		v := f.freshVal(prm.Type(), "p_"+prm.Name())
 		f.assumeAllocated(v)
 		if ms != nil && prm.Name() == ms.sink {
-			v.Ghost = map[string]*Term{"q": f.monitorConst(ms.name, "START"), "k": IntLit(0)}
+			if v.K == VSlice {
+				v.Ghost = map[string]*Term{"q": f.monitorConst(ms.name, "START"), "k": IntLit(0)}
+			} else {
+				// a writer: the monitor state is ghost state, initialised at entry
+				f.st = f.st.Clone()
+				f.st.Set(monQKey, IntS, f.monitorConst(ms.name, "START"))
+				f.st.Set(monKKey, IntS, IntLit(0))
+				f.entryState = f.st
+			}
 		}
 		f.vals[prm] = v
 		f.params[prm.Name()] = v
